@@ -215,8 +215,8 @@ theorem armijo_terminates_archimedean [Archimedean K] (N : List K → NormRes K)
   obtain ⟨n, hn⟩ := exists_pow_lt_of_lt_one hmin hρ1
   exact ⟨n, fun fuel hf => armijo_terminates N cfg x0 δ cur hρ0 hρ1.le n fuel hn hf⟩
 
-/-- **armijo_failure_sound** — the line search raises only if no evaluated trial point improved on the current norm:
-whenever the result is `failed`, there is no returned point at all (the error is an explicit outcome, not a state). -/
+/-- the stepper the Newton loop sees fails exactly when the line search raised `BackendError`: the error is an explicit
+outcome that carries no point (it is mapped to `ConvergenceError`, see `Outcome.stepFailed`), never a returned state -/
 theorem armijoStepper_failed_iff (N : List K → NormRes K) (cfg : ArmijoCfg K) (fuel : ℕ) (x δ : List K) (cur : Option K) :
     armijoStepper N cfg fuel x δ cur = .failed ↔ ∃ t, armijo N cfg fuel x δ cur = .failed t := by
   unfold armijoStepper
